@@ -331,3 +331,39 @@ Definition dispatch (glue : list irm) (ms : list method) (k : nat) (vs : list rv
 
 (* FFI-safety of a C type by rustc's improper_ctypes rules (for the forms that occur) *)
 Definition ffi_safe (c : cty) : bool := ffi_safe_fwd c.   (* CResult<T, std::io::Error>: the error type has no C repr *)
+
+(* ---- #[cglue_forward]: the impl generated for Fwd<O> (cglue-gen/src/forward.rs, ParsedFunc::forward_wrapped_trait_impl) ----------------
+   every method with a REFERENCE receiver — whether or not the trait gives it a default body — gets `let ret = (self.0).m(args); ret`;
+   by-value methods are not forwarded; the handle must be DerefMut iff some forwarded method takes &mut self *)
+Record fwd := mkfw { fw_target : nat; fw_convs : list conv; fw_ret_id : bool }.
+Definition gen_forward_method (pos : nat) (m : method) : option fwd :=
+  if m_vtbl_only m then None          (* #[vtbl_only]: not forwarded either — a call on the handle runs the trait's default body (outside C01) *)
+  else match m_recv m with ROwn => None | _ => Some (mkfw pos (map (fun _ => VId) (m_args m)) true) end.
+Fixpoint gen_forward_from (pos : nat) (ms : list method) : list (option fwd) :=
+  match ms with [] => [] | m :: r => gen_forward_method pos m :: gen_forward_from (S pos) r end.
+Definition gen_forward (t : trait_def) : list (option fwd) := gen_forward_from 0 (t_methods t).
+Definition fwd_need_mut (t : trait_def) : bool :=
+  existsb (fun m => negb (m_vtbl_only m) && match m_recv m with RMut => true | _ => false end) (t_methods t).
+
+(* rows as printed by harness/gen (fwd, id 201) *)
+Definition enc_fwd (pos : nat) (m : method) (f : option fwd) : list Z :=
+  match f with
+  | None => [0]
+  | Some f => [1; bz (Nat.eqb (fw_target f) pos); nz (length (fw_convs f))] ++ map enc_conv (fw_convs f)
+              ++ [bz (Nat.eqb (length (fw_convs f)) (length (m_args m))); (if fw_ret_id f then 0 else 9); 0]
+  end.
+Fixpoint enc_fwd_all (pos : nat) (ms : list method) (fs : list (option fwd)) : list (list Z) :=
+  match ms, fs with m :: mr, f :: fr => enc_fwd pos m f :: enc_fwd_all (S pos) mr fr | _, _ => [] end.
+Definition run_fwd (params : list Z) (rows : list (list Z)) : list (list Z) :=
+  match dec_methods rows with
+  | Some ms => let t := mkt false ms in enc_fwd_all 0 ms (gen_forward t) ++ [[bz (fwd_need_mut t)]]
+  | None => [[-2]]
+  end.
+
+(* meaning: which method of the value behind the handle runs, with which arguments *)
+Definition fwd_dispatch (fs : list (option fwd)) (k : nat) (vs : list rval) : option (nat * list rval) :=
+  match nth_error fs k with
+  | Some (Some f) => if forallb (fun c => match c with VId => true | _ => false end) (fw_convs f) && (length (fw_convs f) =? length vs)%nat && fw_ret_id f
+                     then Some (fw_target f, vs) else None
+  | _ => None
+  end.
